@@ -1,0 +1,24 @@
+//go:build verif
+
+// Contracts for package stream_relay, checked by /verif (bfvc). Comment-only.
+package stream_relay
+
+// C34. Invariant established by NewController: srcPeerID != "", conf.ProtocolId
+// is a valid (non-empty) protocol ID and equals c.protocolID.
+
+//@ func NewController
+//@   noframe
+//@   ensures ret1 == nil ==> ret0 != nil && ret0.srcPeerID != "" && ret0.conf != nil && ret0.conf.ProtocolId != ""
+
+//@ func (*Controller).resolveHandleMountedStream
+//@   noframe
+//@   requires c.conf != nil && c.conf.ProtocolId != "" && c.srcPeerID != ""
+//@   ensures ret0 != nil ==> dir.HandleMountedStreamProtocolID() == c.conf.ProtocolId
+//@   ensures ret0 != nil ==> dir.HandleMountedStreamLocalPeerID() == c.srcPeerID
+
+//@ func (*Controller).HandleDirective
+//@   noframe
+//@   requires c.conf != nil && c.conf.ProtocolId != "" && c.srcPeerID != ""
+//@   ensures ret0 != nil ==> implements(di.GetDirective(), link.HandleMountedStream)
+//@   ensures ret0 != nil ==> as(di.GetDirective(), link.HandleMountedStream).HandleMountedStreamProtocolID() == c.conf.ProtocolId
+//@   ensures ret0 != nil ==> as(di.GetDirective(), link.HandleMountedStream).HandleMountedStreamLocalPeerID() == c.srcPeerID
